@@ -237,6 +237,39 @@ def run(repo, rep):
     lx = LayoutExtractor(repo)
     check_wire(lx, rep, prefix='C10', only=('MaximumLengthSubItem',), rule_map={'L1': 'X7', 'L2': 'X7', 'L3': 'X7', 'L5': 'X7', 'L6': 'X7'})
 
+    # X11: what the provider refuses on input is what this side announced
+    rep.rule('C10.X11', 'each side announces a value it is itself prepared to receive: where an association tells its upper-layer provider '
+             'the largest P-DATA-TF it accepts (a store into ``<dul>.max_pdu_length``), the value is the one carried by the Maximum Length '
+             'sub-item this side sends -- not the limit negotiated for the other direction', 1)
+    p11, n11 = [], 0
+    for cname_, mname_ in (('AssociationRequester', '_request'), ('AssociationAcceptor', 'accept')):
+        f11 = repo.cls('asceprovider', cname_).find_method(mname_)
+        if f11 is None:
+            continue
+        c11_ = SymClient(repo, f11, event_of=lambda *a: None, hierarchy=hier, inline=repo.is_helper,
+                         store_event=lambda t: t.endswith('dul.max_pdu_length'))
+        for s_, how_ in c11_.final_states(c11_.run(empty_state())):
+            if how_.startswith('raise'):
+                continue
+            st_ = [e_ for e_ in s_.trail if e_.kind == 'store']
+            if not st_:
+                continue
+            n11 += 1
+            announced = {v_ for t_, f_, v_ in s_.heap if f_ in ('@maximum_length_received', 'maximum_length_received')}
+            got = st_[-1].args[0]
+            if got.endswith('.maximum_length_received'):
+                # the attribute of a sub-item built on this path: what its constructor was given
+                tok_ = got[:-len('.maximum_length_received')]
+                for t_, f_, v_ in s_.heap:
+                    if t_ == tok_ and f_ == '@maximum_length_received':
+                        got = v_
+            if announced and got not in announced:
+                p11.append('%s: the provider is told to accept P-DATA-TF up to %s, the Maximum Length sub-item sent carries %s [%s]'
+                           % (f11.loc(), got[:80], ' / '.join(sorted(announced))[:80], ' '.join(c_ for c_ in s_.conds if 'max' in c_)[:160]))
+    rep.notes['incoming_limit_stores'] = n11
+    rep.check(not p11, 'C10.X11', 'asceprovider:incoming-limit', repo.module('asceprovider').relpath,
+              '%d path(s) tell the provider an incoming limit, each the announced value' % n11, '; '.join(sorted(set(p11))[:3]))
+
     sp_, sn_ = limit_setter_problems(repo)
     rep.rule('C10.X10', 'the limit in force is the limit that was set: when ``max_pdu_length`` of an association is a property with a '
              'setter, the setter (evaluated by constant propagation, peval.py) stores 0 and every value from 7 on -- the smallest '
